@@ -7,7 +7,7 @@ THEOREMS = ["C13_initial", "C13_monotone", "C13_first_pdu", "C13_error_report", 
             "C13_closed_before_session", "C13_fast_reconnect", "C13_enforced", "C13_eod_format",
             "C13_sync_translated", "C13_error_pdu_translated"]
 FAULTS = ["bad_version", "err_unsupported_ver", "close_now", "trunc_close", "eod_v0_in_v1", "bad_version", "err_other",
-          "timeout", "trunc_err", "spurious_reset", "stop", "intr_before", "downgrade_error"]
+          "timeout", "trunc_err", "spurious_reset", "stop", "intr_before", "downgrade_error", "err_nodata_other_ver"]
 
 
 # Told stories: the data expires while the connection stays up (the purge runs in the "no data" / "no incremental update"
@@ -23,6 +23,12 @@ STORIES = [
      ["truthful", "err_nodata", "other_version_answer", "truthful"]),
     ({"refresh": 1, "expire": 600, "retry": 600, "ver": 1, "ivals": (1, 600, 600), "mode": 0},
      ["truthful", "err_nodata", "bad_version"]),
+    # an Error Report in the other version does not re-open the version question: what follows on the same connection in
+    # that other version is still refused
+    ({"refresh": 30, "expire": 7200, "retry": 5, "ver": 1, "ivals": (30, 5, 7200), "mode": 0},
+     ["truthful", "err_nodata_other_ver", "other_version_answer", "truthful"]),
+    ({"refresh": 30, "expire": 7200, "retry": 5, "ver": 1, "ivals": (30, 5, 7200), "mode": 0},
+     ["err_nodata_other_ver", "other_version_answer", "truthful"]),
     # an interrupted receive call must not use up "the first PDU of this connection": a version-0 cache is still
     # recognised from its first PDU afterwards
     ({"refresh": 30, "expire": 7200, "retry": 600, "ver": 0, "ivals": (30, 600, 7200), "mode": 0},
